@@ -26,6 +26,7 @@ func init() {
 }
 
 func runC08(c *report.Ctx) {
+	ruleLoopCellAddressNotRetained(c)
 	p := c.P
 	ar := fn(c, pkgWallet, "NtfnsHandler", "asyncRemove")
 	if ar == nil {
